@@ -296,6 +296,14 @@ def init_val(f):
 
 def rand_val(rng, schema, f, depth, big=False, budget=None):
     t = f.type
+    if f.dflt is not None and f.dflt[0] in ('V', 'S', 'B') and rng.random() < 0.25:
+        # explicitly present, but holding exactly the declared default value
+        k, v = f.dflt
+        if k == 'V':
+            return ('w', v)
+        if k == 'S':
+            return ('str', 'S', bytes(v))
+        return ('bin', len(v), 'B', bytes(v)) if len(v) else ('bin', 0, 'N', b'')
     if t == T_STRING:
         n = rand_len(rng, big)
         if getattr(schema, 'syntax', 2) == 3 or rng.random() < 0.5:
@@ -690,6 +698,13 @@ def encode_records(schema, msg, rng=None, knobs=None):
             continue                      # deliberately left off the wire (C11 generator)
         if s[0] == 'rep':
             vals = (s[2] or [])[:s[1]]
+            if knobs.get('overlong') and f.type in PACKABLE and f.type not in WT and rng.random() < 0.5:
+                # INVALID on purpose (hostile input): a packed record with an element of 11..16 continuation bytes
+                k = rng.choice([10, 11, 11, 12, 16])
+                payload = bytes([0x80 | rng.getrandbits(7) for _ in range(k)]) + bytes([rng.getrandbits(7)])
+                if rng.random() < 0.5:
+                    payload = enc_varint(rng.getrandbits(20)) + payload + enc_varint(rng.getrandbits(7))
+                recs.append(enc_key(f.id, 2) + enc_varint(len(payload)) + payload)
             if knobs.get('empty_packed') and f.type in PACKABLE and rng.random() < 0.4:
                 # a packed record with zero elements: valid, contributes nothing
                 recs.append(enc_key(f.id, 2, rng, knobs.get('pad', False)) + b'\x00')
@@ -716,12 +731,23 @@ def encode_records(schema, msg, rng=None, knobs=None):
             if knobs.get('stale') and f.type not in (T_MESSAGE,) and not f.oneof and rng.random() < 0.3:
                 # an earlier, overridden occurrence of a singular scalar/string/bytes field
                 recs.append(enc_elem(schema, f, rand_val(rng, schema, f, 9), rng, knobs))
-            if knobs.get('multi_oneof') and f.oneof and rng.random() < 0.5:
+            if knobs.get('multi_oneof') and f.oneof and rng.random() < 0.5 and not (knobs.get('later_occ') and f.type == T_MESSAGE):
+                # (not inside a LATER occurrence of an enclosing message when the final member is a message: switching a
+                #  oneof away from and back to a message member there is known finding F23, kept as a fixed corpus input)
                 # an earlier occurrence of another (or the same) member of the oneof: the last one wins
                 others = [g for g in m.fields if g.group == f.group and (g.type != T_MESSAGE)]
                 if others:
                     g = rng.choice(others)
                     recs.append(enc_elem(schema, g, rand_val(rng, schema, g, 9), rng, knobs))
+            if (knobs.get('multi_occ') and f.type == T_MESSAGE and s[2][0] == 'msg' and s[2][1] is not None and rng.random() < 0.6):
+                # one or two EARLIER, independent occurrences of the same embedded message (complete in their
+                # required fields); what the merge must yield is decided by the reference implementation
+                for k in range(rng.choice([1, 1, 2])):
+                    e = rand_msg(rng, schema, f.sub, depth=2)
+                    body = encode(schema, e, rng, dict(knobs, multi_occ=False, split_msg=False, later_occ=knobs.get('later_occ') or k > 0))
+                    recs.append(enc_key(f.id, 2, rng, knobs.get('pad', False)) + enc_len(len(body), rng, knobs.get('pad', False)) + body)
+                recs.append(enc_elem(schema, f, s[2], rng, dict(knobs, later_occ=True)))
+                continue
             if (knobs.get('split_msg') and f.type == T_MESSAGE and s[2][0] == 'msg' and s[2][1] is not None
                     and not any(x.label == L_REQ for x in schema.msgs[f.sub].fields) and rng.random() < 0.7):
                 # the sub-message delivered in 2..3 occurrences that the parser must merge
